@@ -91,7 +91,7 @@ class Executor:
             self.files.install()
         self.clock = None
         if m.get('clock', True):
-            self.clock = seams.SimClock(m.get('clock_start', 738000))
+            self.clock = seams.SimClock(m.get('clock_start', 738000), m.get('clock_tick', 0.001))
             self.clock.rollover = bool(m.get('rollover'))
             note = self.clock.install(self.mods)
             if note:
